@@ -12,7 +12,8 @@ RULE = ('programs, not just inputs: random expression trees (depth <= 4; thoroug
         'either side (incl. scalars 0 and 1), .H and .gram; operator matrices built with & | from_diagonal, their +, *, @, .H and indexing; '
         'the specialised grams of CartesianSamplingOp and FourierOp. Each program is evaluated on basis vectors (dense matrix) and compared '
         'exactly with numpy matrix algebra (oracle) and with the Coq [build] semantics. Non-trivial = at least two operators combined; distinct by hash.')
-TRUSTED_BASE = ['torch.einsum / EinsumOp as the leaf oracle; numpy matrix algebra as the reference of "the corresponding expression on the matrices"',
+TRUSTED_BASE = ['translator harness/translate/linop.py (ast -> Gallina for the adjoint methods and gram rules of LinearOperator.py; fail-closed)',
+                'torch.einsum / EinsumOp as the leaf oracle; numpy matrix algebra as the reference of "the corresponding expression on the matrices"',
                 'FourierGramOp (Toeplitz NUFFT kernel) is numerical: validated at 1e-3 relative against F^H F, not proved']
 ASSUMPTIONS = ['a ZeroOp() result (scalar 0) is read as the zero tensor it broadcasts to']
 PREAMBLE = ('From MrVerif Require Import Base.Prelude Base.StarRing Base.Sums Model.OpAlg Model.ElemOps Model.Exec Model.Algebra.\n'
@@ -441,6 +442,28 @@ def oracle_gram(c, o):
     if o['dev'] > tol:
         return f'{c["cls"]}.gram differs from A^H A (relative deviation {o["dev"]:.3g})'
     return None
+
+
+
+def translate(ctx):
+    """Regenerate Gen/linop_gen.v from LinearOperator.py (adjoint methods and gram rules of the combinator classes) and re-check
+    the obligations that tie them to Model/OpAlg.v and Model/Algebra.v."""
+    from translate import linop
+    out = vlib.COQ / 'Gen' / 'linop_gen.v'
+    out.parent.mkdir(exist_ok=True)
+    ok, why = linop.write(out)
+    ctx.extra.setdefault('coverage', {})['translator_available'] = ok
+    if not ok:
+        ctx.notes.append(f'translator harness/translate/linop.py failed closed ({why}); the combinators rest on correspondence alone in this run')
+        ctx.problem('proof', 'gen_linop', None, f'LinearOperator.py is outside the translated subset ({why}): the regenerated obligations cannot be stated')
+        return
+    ctx.obligations += linop.N_OBLIGATIONS
+    rc, so, se = vlib.coqc_file(out)
+    if rc == 0:
+        ctx.discharged += linop.N_OBLIGATIONS
+    else:
+        ctx.problem('proof', 'gen_linop', None,
+                    'regenerated obligation gen_*_ok (adjoint/gram of the combinator classes == model) no longer proves: ' + (se or so)[-700:])
 
 
 FAMILIES = [
